@@ -198,7 +198,7 @@ def const_table(files):
             src = open(fpath).read()
         except OSError:
             continue
-        for m in re.finditer(r"const (\w+): (\w+) = ([^;]+);", src):
+        for m in re.finditer(r"const (\w+): (\w+) = ([^;\n]+(?:;[^;\n]*\][^;\n]*)*);", src):
             raw[m.group(1)] = (m.group(3), m.group(2))
     out = {}
     for _ in range(6):
@@ -206,6 +206,7 @@ def const_table(files):
             if name in out or ty not in INT_W:
                 continue
             e = re.sub(r"\b([A-Z][A-Z0-9_]+)\b", lambda mm: str(out[mm.group(1)][0]) if mm.group(1) in out else mm.group(0), expr)
+            e = re.sub(r"(?:std::mem::|mem::)?size_of::<([^<>]*)>\(\)", lambda mm: str(_size_of_type(mm.group(1))) if _size_of_type(mm.group(1)) is not None else mm.group(0), e)
             e = re.sub(r"(\d)_(\d)", r"\1\2", e).replace("/", "//")
             e = re.sub(r" as \w+", "", e)
             if re.fullmatch(r"[\d\s()+\-*/<>]+", e):
